@@ -104,7 +104,14 @@ void apply_pending(World &W, Peer &p)
 				Bytes b = e.gets("kind") == "stray" ? fresh_prefix_pdu((uint8_t)e.geti("ver"), p.si, 77, 1)
 								     : pdu_serial_notify((uint8_t)e.geti("ver"), p.session, p.serial);
 				uint64_t gap = (uint64_t)e.geti("gap_ms", 0) * 1000000ull;
-				if (gap) { // header now, the rest later (a slow or congested path)
+				size_t stall_b = (size_t)e.geti("stall_b", 0);
+				if (stall_b >= 1 && stall_b < 8) {
+					// the path stalls in the middle of the PDU header: these bytes arrive, nothing follows on this
+					// connection, and the cache drops it at the next query
+					queue_bytes(W, p, Bytes(b.begin(), b.begin() + (long)stall_b), 1000000);
+					p.stalled_gen = p.gen;
+					W.ctx.count("fault_stall_inside_header");
+				} else if (gap) { // header now, the rest later (a slow or congested path)
 					Bytes head(b.begin(), b.begin() + 8), rest(b.begin() + 8, b.end());
 					queue_bytes(W, p, head, 1000000);
 					queue_bytes(W, p, rest, 1000000 + gap);
@@ -334,7 +341,11 @@ void respond(World &W, Peer &p, Exchange &x, const Bytes &query)
 {
 	apply_pending(W, p);
 	J ex;
-	if (p.xi < p.script.size()) {
+	if (p.stalled_gen == p.gen) { // (does not consume a scripted exchange)
+		ex = J::obj();
+		ex["resp"] = "hangup";
+		x.tail = p.xi >= p.script.size();
+	} else if (p.xi < p.script.size()) {
 		ex = p.script[p.xi++];
 		x.tail = false;
 	} else {
@@ -343,7 +354,7 @@ void respond(World &W, Peer &p, Exchange &x, const Bytes &query)
 	}
 	x.plan = ex;
 	x.alloc_at_query = simalloc_calls();
-	x.script_index = x.tail ? -1 : (int)p.xi - 1;
+	x.script_index = (x.tail || p.stalled_gen == p.gen) ? -1 : (int)p.xi - 1;
 	if (ex.has("alloc_fail_k")) { // C18: the k-th allocation from here on fails (fault attached to this exchange)
 		simalloc_fail_at(simalloc_calls() + (uint64_t)ex.geti("alloc_fail_k", 1));
 		W.ctx.prop_override = "C18";
@@ -464,6 +475,7 @@ void respond(World &W, Peer &p, Exchange &x, const Bytes &query)
 		pend["ver"] = (int)rv;
 		pend["kind"] = nf.gets("kind", "notify");
 		pend["gap_ms"] = nf.geti("gap_ms", 0);
+		pend["stall_b"] = nf.geti("stall_b", 0);
 		p.pending.push_back(pend);
 	}
 	cache_enter_clean_if_due(W, p);
